@@ -473,3 +473,49 @@ Qed.
 Lemma ex_repo_walk rid :
   walk (serve_sdr ex_repo) rid 0 (length ex_repo + 1) [] = WOk [(0, fsr_of ex_body); (3, fsr_of ex_body)].
 Proof. destruct ex_repo_wf as [Hwf Hw]. rewrite (walk_complete _ rid Hwf Hw). reflexivity. Qed.
+
+(* ===================== the outer retry loop ===================== *)
+(* RetrieveSDRRepository: rounds are attempted until one succeeds or the context ends ([rounds] exhausted).
+   A round is what the BMC served during it: the two info answers, the reservation, the Get SDR server. *)
+Record round := { rd_info0 : option (N * N); rd_info1 : option (N * N); rd_reserve : unit -> option N; rd_get : sdr_server }.
+Fixpoint retrieve (rounds : list round) (fuel : nat) : option (list (N * fsr)) :=
+  match rounds with
+  | [] => None
+  | r :: rest =>
+      match retrieve_round (rd_info0 r) (rd_info1 r) (rd_reserve r) (rd_get r) fuel with
+      | Some m => Some m
+      | None => retrieve rest fuel
+      end
+  end.
+
+(* whatever happened in earlier rounds (modifications, lost reservations, errors), what is returned is the result of
+   ONE round, in which both info answers arrived, no timestamp advanced, the walk ran under one reservation and
+   succeeded - never a mixture of rounds, and every earlier round was discarded entirely *)
+Theorem retrieve_is_one_round rounds fuel m :
+  retrieve rounds fuel = Some m ->
+  exists pre r post add0 erase0 add1 erase1 rid,
+    rounds = pre ++ r :: post /\
+    Forall (fun q => retrieve_round (rd_info0 q) (rd_info1 q) (rd_reserve q) (rd_get q) fuel = None) pre /\
+    rd_info0 r = Some (add0, erase0) /\ rd_info1 r = Some (add1, erase1) /\ add1 <= add0 /\ erase1 <= erase0 /\
+    rd_reserve r tt = Some rid /\ walk (rd_get r) rid 0 fuel [] = WOk m.
+Proof.
+  induction rounds as [|q rest IH]; cbn [retrieve]; [discriminate|].
+  destruct (retrieve_round (rd_info0 q) (rd_info1 q) (rd_reserve q) (rd_get q) fuel) as [m'|] eqn:E.
+  - intros H. injection H as <-.
+    destruct (retrieve_round_some _ _ _ _ _ _ E) as (a0 & e0 & a1 & e1 & rid & H0 & H1 & Ha & He & Hr & Hw).
+    exists [], q, rest, a0, e0, a1, e1, rid. repeat split; auto.
+  - intros H. destruct (IH H) as (pre & r & post & a0 & e0 & a1 & e1 & rid & -> & F & R).
+    exists (q :: pre), r, post, a0, e0, a1, e1, rid. split; [reflexivity|]. split; [constructor; assumption|exact R].
+Qed.
+
+(* against a repository that holds still for one round, that round's result is the repository's records *)
+Theorem retrieve_quiet_round pre recs info reserve add erase rid post :
+  wf_repo recs -> walkable recs -> info = Some (add, erase) -> reserve tt = Some rid ->
+  Forall (fun q => retrieve_round (rd_info0 q) (rd_info1 q) (rd_reserve q) (rd_get q) (length recs + 1) = None) pre ->
+  retrieve (pre ++ {| rd_info0 := info; rd_info1 := info; rd_reserve := reserve; rd_get := serve_sdr recs |} :: post)
+           (length recs + 1) = Some (full_records recs).
+Proof.
+  intros Hwf Hw Hi Hr F. induction pre as [|q pre IH]; cbn [app retrieve].
+  - cbn [rd_info0 rd_info1 rd_reserve rd_get]. rewrite (retrieve_round_repo recs info reserve add erase rid Hwf Hw Hi Hr). reflexivity.
+  - inversion F as [|? ? Hq F']; subst. rewrite Hq. apply IH. exact F'.
+Qed.
